@@ -132,7 +132,8 @@ int pipe_init(int *read, int *write)
   ENS("C11/pipe_init.both_ends_close_on_exec", IMPLIES(RV == 0, (g.fds.cloexec & (MASK_OF(*read) | MASK_OF(*write))) == (MASK_OF(*read) | MASK_OF(*write))))
   ENS("C17/pipe_init.both_ends_blocking", IMPLIES(RV == 0, (g.fds.nonblock & (MASK_OF(*read) | MASK_OF(*write))) == 0))
   ENS("C10/pipe_init.ends_of_one_pipe", IMPLIES(RV == 0, g.fds.obj[*read] >= OBJ_PIPE_BASE && (g.fds.obj[*read] & 1) == 0 && g.fds.obj[*write] == g.fds.obj[*read] + 1 && (g.fds.rd & BIT(*read)) != 0 && (g.fds.wr & BIT(*write)) != 0))
-  ENS("C05+INV/pipe_init.failure_leaves_no_descriptor", IMPLIES(RV != 0, FD_LEDGER_UNCHANGED && *read == OLD(*read) && *write == OLD(*write)))
+  ENS("C05/pipe_init.failure_leaves_no_descriptor", IMPLIES(RV != 0, FD_LEDGER_UNCHANGED))
+  ENS("C05+INV/pipe_init.failure_leaves_outputs_untouched", IMPLIES(RV != 0, *read == OLD(*read) && *write == OLD(*write)))
   ENS("C05/pipe_init.other_descriptors_untouched", FD_FRAME_EXCEPT(RV == 0 ? (MASK_OF(*read) | MASK_OF(*write)) : 0u))
   ENS("C04/pipe_init.zero_or_negative_errno", RV <= 0 && IMPLIES(RV < 0, g.e.faults > OLD(g.e.faults)) && IMPLIES(RV == 0, g.e.faults == OLD(g.e.faults)))
   ENS("C04/pipe_init.first_failure_reported", IMPLIES(RV < 0 && OLD(g.e.faults) == 0, RV == -g.e.first_errno))
@@ -215,7 +216,8 @@ int redirect_init(pipe_type *parent, handle_type *child, REPROC_STREAM stream, r
   ENS("C10/redirect_init.stdout_shares_childs_stdout", IMPLIES(RV == 0 && RTYPE == RT_STDOUT, *child == out && FD_LEDGER_UNCHANGED))
   ENS("C05/redirect_init.null_device_fallback_is_recorded_for_release", RD_T(*redirect) == ((RV == 0 && RTYPE == RT_PARENT && PARENT_FALLS_BACK) ? RT_DISCARD : RTYPE))
   ENS("C10+INV/redirect_init.parent_end_only_for_pipes", IMPLIES(RV == 0 && RTYPE != RT_PIPE, *parent == -1))
-  ENS("C05+INV/redirect_init.failure_leaves_no_descriptor", IMPLIES(RV != 0, FD_LEDGER_UNCHANGED && *parent == OLD(*parent) && *child == OLD(*child)))
+  ENS("C05/redirect_init.failure_leaves_no_descriptor", IMPLIES(RV != 0, FD_LEDGER_UNCHANGED))
+  ENS("C05+INV/redirect_init.failure_leaves_outputs_untouched", IMPLIES(RV != 0, *parent == OLD(*parent) && *child == OLD(*child)))
   ENS("C05/redirect_init.other_descriptors_untouched", FD_FRAME_EXCEPT(RV == 0 ? ((RTYPE == RT_PIPE ? MASK_OF(*parent) : 0u) | ((RTYPE == RT_PIPE || OPENS_FILE) ? MASK_OF(*child) : 0u)) : 0u))
   ENS("C04/redirect_init.success_has_no_failed_call", IMPLIES(RV == 0, g.e.faults == OLD(g.e.faults)))
   ENS("C04/redirect_init.zero_or_negative_error", RV <= 0 && IMPLIES(RV < 0 && OLD(g.e.faults) == 0 && g.e.faults > 0, RV == -g.e.first_errno) && IMPLIES(RV < 0 && g.e.faults == OLD(g.e.faults), RV == -EINVAL && (RTYPE == RT_DEFAULT || RTYPE > 7u)))
